@@ -27,6 +27,7 @@ import json
 import multiprocessing
 import os
 import sys
+import time
 
 from common import Check, CoqError, VERIF, coq_bytes, mkdata
 import bpdrive
@@ -39,6 +40,7 @@ SIG_SAMEOFF = ('C06 / recv_bundle identity of a fragment omits its payload lengt
 # known_findings.json it goes through chk.fail() and prints KNOWN-FINDING.
 PENDING_FINDINGS = [SIG_SAMEOFF]
 
+PHASES = []      # (phase, wall seconds) of this run, printed and written to the evidence
 NODE = 'dtn://me/'
 DEST = 'dtn://me/app'
 
@@ -142,6 +144,8 @@ def _impl_worker(case):
 def run_impl_many(cases):
     if len(cases) < 8:
         return [_impl_worker(case) for case in cases]
+    # import the code under test once, before forking the workers
+    bpdrive.BpDriver(node_id=NODE, rx_routes=[], tx_routes=[], capture_order=None)
     ctx = multiprocessing.get_context('fork')
     with ctx.Pool(16) as pool:
         return pool.map(_impl_worker, cases, chunksize=8)
@@ -149,18 +153,21 @@ def run_impl_many(cases):
 
 # ---------------------------------------------------------------------------------------------- model
 
+def coq_hex(data):
+    data = bytes.fromhex(data)
+    return '%d%%nat 0x%s' % (len(data), data.hex() or '0')
+
+
 def coq_frag(case, fidx):
+    # compact terms (mkf / bk of Model/BpReasm.v, `::` instead of list notation): parsing dominates the model run
     frag = case['frags'][fidx]
     (src, time, seq) = case['bundles'][frag['b']]['id']
-    blocks = ['(%d, %d, %s)' % (blk[0], blk[1], coq_bytes(bytes.fromhex(blk[2]))) for blk in frag['blocks']]
-    return '(mkFrag (%d, %d, %d) %d %d %s %s)' % (
-        src, time, seq, frag['off'], frag['total'], coq_bytes(bytes.fromhex(frag['data'])),
-        '[' + '; '.join(blocks) + ']' if blocks else '(@nil blk)')
+    blocks = ''.join('(bk %d %d %s) :: ' % (blk[0], blk[1], coq_hex(blk[2])) for blk in frag['blocks'])
+    return '(mkf %d %d %d %d %d %s (%snil))' % (src, time, seq, frag['off'], frag['total'], coq_hex(frag['data']), blocks)
 
 
 def coq_case(case):
-    items = [coq_frag(case, fidx) for fidx in case['hist']]
-    return '[' + '; '.join(items) + ']' if items else '(@nil frag)'
+    return '(' + ''.join(coq_frag(case, fidx) + ' :: ' for fidx in case['hist']) + '@nil frag)'
 
 
 def canon_entry(item):
@@ -358,7 +365,7 @@ def gen_cases(chk):
                 where = rng.randrange(perm.index(dup) + 1, count + 1)
                 hist = list(perm[:where]) + [dup] + list(perm[where:])
                 cases.append(make_case('perm+dup/' + vname, [(IDS[0], pay, pieces)], lambda per, hist=hist: [per[0][idx] for idx in hist], rng))
-                if vname == 'uniform' or count <= 4 or not quick:
+                if True:
                     # interleaved with a second bundle (same source, next sequence number / other source / other time)
                     other = IDS[1 + rng.randrange(3)]
                     pay2 = payload_of(100 + count, 9 + rng.randrange(4))
@@ -381,7 +388,7 @@ def gen_cases(chk):
                 cases.append(make_case('3frags+2dups', [(IDS[0], pay, pieces)], lambda per, hist=hist: [per[0][idx] for idx in hist], rng))
     # C. random larger histories: up to 4 bundles, up to 10 fragments each, overlaps with distinct offsets,
     #    duplicates, fragments arriving after completion
-    for num in range(200 if quick else 6000):
+    for num in range(400 if quick else 6000):
         nb = rng.randint(1, 4)
         defs = []
         for bidx in range(nb):
@@ -412,7 +419,13 @@ def gen_cases(chk):
         pay = payload_of(5000 + num, length)
         cut_a = rng.randrange(2, length - 1)
         cut_b = rng.choice([cut for cut in range(1, length) if cut != cut_a])
-        pieces = [(0, cut_a), (cut_a, length - cut_a), (0, cut_b), (cut_b, length - cut_b)]
+        if num % 2:
+            # both fragmentations complete
+            pieces = [(0, cut_a), (cut_a, length - cut_a), (0, cut_b), (cut_b, length - cut_b)]
+        else:
+            # the rest of the fragmentation with the SHORTER first fragment was lost on the way
+            (short, long) = sorted((cut_a, cut_b))
+            pieces = [(0, short), (0, long), (long, length - long), (long, length - long)]
         order = list(range(4))
         rng.shuffle(order)
         cases.append(make_case('two-fragmentations', [(IDS[0], pay, pieces)], lambda per, order=order: [per[0][idx] for idx in order], rng))
@@ -444,6 +457,9 @@ def gen_malformed(chk):
         [dict(off=3, data='', total=0)],
         [dict(off=0, data=pay[:5].hex(), total=6), dict(off=8, data=pay[8:].hex(), total=10), dict(off=4, data=pay[4:8].hex(), total=10)],
         [dict(off=0, data=pay[:5].hex(), total=10), dict(off=5, data=pay[5:].hex(), total=12)],
+        # the same bundle announced with two totals: reassembled twice, the second one is suppressed as already seen
+        [dict(off=0, data=pay[:5].hex(), total=10), dict(off=5, data=pay[5:].hex(), total=10),
+         dict(off=0, data=pay[:6].hex(), total=12), dict(off=6, data=(pay[6:] + b'\x55\x66').hex(), total=12)],
     ]
     for frs in fixed:
         cases.append(dict(kind='malformed', bundles=[dict(id=list(IDS[0]), payload=pay.hex())],
@@ -479,20 +495,24 @@ def report(chk, pending, sig, what, replay_obj):
 
 def evaluate(chk, cases, name, pending, with_oracle=True, with_model=True):
     ''' Implementation, model and oracle on a list of cases. -> list of disagreement descriptions '''
+    started = time.time()
     impl = run_impl_many(cases)
+    PHASES.append(('impl:' + name, round(time.time() - started, 1)))
     crashed = [(case, obs) for (case, obs) in zip(cases, impl) if isinstance(obs, dict)]
     if crashed:
         raise RuntimeError('driver failure: %s on %s' % (crashed[0][1]['harness_error'], json.dumps(crashed[0][0])[:400]))
     model = None
     if with_model:
+        started = time.time()
         model = chk.coq_eval(name, ['Lib.Ivl', 'Model.BpReasm'], [coq_case(case) for case in cases],
-                             '(BpReasm.run_render BpReasm.init)')
+                             '(BpReasm.run_render BpReasm.init)', chunk=120)
+        PHASES.append(('model:' + name, round(time.time() - started, 1)))
     diffs = []
     for (pos, (case, obs)) in enumerate(zip(cases, impl)):
         chk.case(ident=json.dumps(case, sort_keys=True), nontrivial=nontrivial(case),
                  sample=dict(kind=case['kind'], bundles=case['bundles'],
                              arrival=[[case['frags'][f]['b'], case['frags'][f]['off'], len(case['frags'][f]['data']) // 2] for f in case['hist']],
-                             delivered=[[step['code'], [d['id'] for d in step['delivered']]] for step in obs]) if pos % 997 == 3 else None)
+                             delivered=[[step['code'], [d['id'] for d in step['delivered']]] for step in obs]) if (pos % 211 == 5 and nontrivial(case)) else None)
         chk.count('kind', case['kind'])
         chk.count('history_length', len(case['hist']) if len(case['hist']) < 12 else '>=12')
         chk.count('bundles_interleaved', len(set(case['frags'][f]['b'] for f in case['hist'])))
@@ -562,7 +582,9 @@ def main():
     if chk.args.replay:
         replay(chk, chk.args.replay)
         return
+    started = time.time()
     chk.coq_props()
+    PHASES.append(('coq_props', round(time.time() - started, 1)))
     pending = {}
     diffs = {}
     try:
@@ -603,6 +625,7 @@ def main():
             print('# broken: %s: %s' % (name, detail[:1200]))
     for (sig, (what, path)) in sorted(pending.items()):
         print('PENDING-FINDING: property=C06 %s: %s (replay %s)' % (sig, what, path))
+    print('phases (wall s): %s' % ', '.join('%s %.1f' % item for item in PHASES))
     chk.finish(
         rule=('arrival histories of fragment bundles fed to a fresh real agent: (A) all permutations of 1..5 fragments of one '
               'bundle for a uniform, an uneven and an overlapping (distinct offsets) fragmentation, each also with one duplicate '
@@ -615,7 +638,7 @@ def main():
               'bundle arrive and the history is out of offset order, repeats a fragment or mixes identities. Distinct by the '
               'whole case (bundles, fragments, arrival order).'),
         extra_cov=dict(
-            model='coq/Model/BpReasm.v',
+            model='coq/Model/BpReasm.v', phases_wall_s=[list(item) for item in PHASES],
             refuted=['C06_complete_once_refuted (pending finding: %s)' % SIG_SAMEOFF],
             partial=['C06_complete_once_partial (hypothesis: no two distinct fragments of the cover share an offset)'],
             pending_findings=[dict(signature=sig, what=what) for (sig, (what, _p)) in sorted(pending.items())],
